@@ -25,6 +25,8 @@ package rpc
 //@ fn P(d *tracerData, syncSchema bool, k int) int := syncSchema ? d.trackedIdxs[k] : k
 // Prev: the tick the client holds for wire index x (absent = 0).
 //@ fn Prev(lp *tracerData, x int) int := (isnil(lp.mTime) || x >= len(lp.mTime)) ? 0 : lp.mTime[x]
+// Flip: the parity the client holds for wire index x differs from the new one.
+//@ pred Flip(lp *tracerData, d *tracerData, x int) := (isnil(lp.mTime) || x >= len(lp.mTime)) ? odd(d.mTime[x]) : (odd(lp.mTime[x]) != odd(d.mTime[x]))
 
 //@ pred DeepUpd(syncSchema bool, data *tracerData, lastPush *tracerData, indexes []uint16, ticks []uint32) :=
 //@      len(indexes) == len(ticks) && len(indexes) <= len(data.tracked)
@@ -62,9 +64,9 @@ package rpc
 //@   && (forall i, j int :: 0 <= i && i < j && j < len(indexes) ==> indexes[i] < indexes[j])
 //@   && (forall j int :: 0 <= j && j < len(indexes) ==>
 //@          (exists k int :: 0 <= k && k < len(data.tracked) && indexes[j] == P(data, syncSchema, k))
-//@          && ticks[j] == ((Prev(lastPush, indexes[j]) % 2 != data.mTime[indexes[j]] % 2) ? 1 : 0))
+//@          && ticks[j] == (Flip(lastPush, data, indexes[j]) ? 1 : 0))
 //@   && (forall k int :: 0 <= k && k < len(data.tracked) &&
-//@          Prev(lastPush, P(data, syncSchema, k)) % 2 != data.mTime[P(data, syncSchema, k)] % 2 ==>
+//@          Flip(lastPush, data, P(data, syncSchema, k)) ==>
 //@          exists j int :: 0 <= j && j < len(indexes) && indexes[j] == P(data, syncSchema, k))
 
 //@ func genShallowUpdate(syncSchema bool, data, lastPush *tracerData) (indexes []uint16, ticks []uint32)
@@ -78,9 +80,9 @@ package rpc
 //@   loop 1 invariant below:   forall j int :: 0 <= j && j < len(indexes) ==> trackedIdx > 0 && indexes[j] <= P(data, syncSchema, trackedIdx - 1)
 //@   loop 1 invariant sound:   forall j int :: 0 <= j && j < len(indexes) ==>
 //@                        (exists k int :: 0 <= k && k < trackedIdx && indexes[j] == P(data, syncSchema, k))
-//@                        && ticks[j] == ((Prev(lastPush, indexes[j]) % 2 != data.mTime[indexes[j]] % 2) ? 1 : 0)
+//@                        && ticks[j] == (Flip(lastPush, data, indexes[j]) ? 1 : 0)
 //@   loop 1 invariant complete: forall k int :: 0 <= k && k < trackedIdx &&
-//@                        Prev(lastPush, P(data, syncSchema, k)) % 2 != data.mTime[P(data, syncSchema, k)] % 2 ==>
+//@                        Flip(lastPush, data, P(data, syncSchema, k)) ==>
 //@                        exists j int :: 0 <= j && j < len(indexes) && indexes[j] == P(data, syncSchema, k)
 
 //@ func calcUpdate(syncSchema bool, data, lastPush *tracerData, shallowClocks bool) (u *MsgSrvUpdate)
@@ -162,8 +164,8 @@ package rpc
 //@   requires agree:   forall k int :: 0 <= k && k < len(now.tracked) ==> mirror[P(now, syncSchema, k)] % 2 == Prev(prev, P(now, syncSchema, k)) % 2
 //@   requires room:    forall x int :: 0 <= x && x < len(mirror) ==> mirror[x] < MaxU64
 //@   call u := calcUpdate(syncSchema, now, prev, true)
-//@   assert hit: forall k int :: (0 <= k && k < len(now.tracked) && Prev(prev, P(now, syncSchema, k)) % 2 != now.mTime[P(now, syncSchema, k)] % 2) ==> SumAt(u.Indexes, u.Ticks, P(now, syncSchema, k), len(u.Indexes)) == 1
-//@   assert miss: forall k int :: (0 <= k && k < len(now.tracked) && Prev(prev, P(now, syncSchema, k)) % 2 == now.mTime[P(now, syncSchema, k)] % 2) ==> SumAt(u.Indexes, u.Ticks, P(now, syncSchema, k), len(u.Indexes)) == 0
+//@   assert hit: forall k int :: (0 <= k && k < len(now.tracked) && Flip(prev, now, P(now, syncSchema, k))) ==> SumAt(u.Indexes, u.Ticks, P(now, syncSchema, k), len(u.Indexes)) == 1
+//@   assert miss: forall k int :: (0 <= k && k < len(now.tracked) && !Flip(prev, now, P(now, syncSchema, k))) ==> SumAt(u.Indexes, u.Ticks, P(now, syncSchema, k), len(u.Indexes)) == 0
 //@   call a, q, m := c.clockFromUpdate(u, mirror, prev.queueTick, prev.machTick)
 //@   ensures  parity: forall k int :: 0 <= k && k < len(now.tracked) ==> a[P(now, syncSchema, k)] % 2 == now.mTime[P(now, syncSchema, k)] % 2
 //@   ensures  qtick:  (now.queueTick >= prev.queueTick && now.queueTick - prev.queueTick < 65536) ==> q == now.queueTick
